@@ -351,7 +351,7 @@ def c02_entry(rng, fmt, k, prev_regs):
         n = rng.choice([1, 10, 98, 99] + ([100] if fmt != 'v7tar' else []) + ([101, 300] if fmt in ('pax', 'gnutar', 'zip', '7zip', 'odc', 'newc', 'mtree', 'xar') else []))
         d['sym'] = hx(('t' * n))
     if typ in ('chr', 'blk'):
-        mx = {'ustar': 262143, 'gnutar': 262143, 'odc': 255, 'bin': 255, 'pwb': 255}.get(fmt, 2 ** 20)
+        mx = {'ustar': 262143, 'gnutar': 262143, 'odc': 1023, 'bin': 255, 'pwb': 255}.get(fmt, 2 ** 20)
         d['rdevmajor'] = str(rng.choice([0, 1, 8, 255, mx])); d['rdevminor'] = str(rng.choice([0, 3, 255, mx if fmt not in ('odc',) else 255]))
     return add_extras(rng, fmt, d)
 
